@@ -852,6 +852,9 @@ pub fn lsp_wellformed(doc: &str, reply: &str) -> Result<(), String> {
     if reply.starts_with("PANIC") || reply == "NO-SERVER" {
         return Err(format!("the language server died or could not be started: {}", reply));
     }
+    if reply.starts_with("NODIAG") {
+        return Err("the open / change was not answered with diagnostics: the server replied to the NEXT request without having published any".to_string());
+    }
     let lines = protocol_lines(doc);
     let u16len = |s: &str| s.encode_utf16().count();
     let Some(rest) = reply.strip_prefix("D ") else { return Err(format!("unparsable reply {}", reply)) };
